@@ -14,3 +14,6 @@ nm_size_t verif_compute_offset(sv_t indices, sv_t strides) { return ix::compute_
 sv_t verif_compute_indices3(nm_size_t offset, sv_t shape, sv_t strides) { return ix::compute_indices(offset,shape,strides); }
 sv_t verif_compute_indices2(nm_size_t offset, sv_t shape) { return ix::compute_indices(offset,shape); }
 nm_size_t verif_product(sv_t shape) { return ix::product(shape); }
+#include "nmtools/array/index/ndindex.hpp"
+sv_t verif_ndindex_at(sv_t shape, nm_size_t i) { auto nd = ix::ndindex(shape); return nd[i]; }
+nm_size_t verif_ndindex_size(sv_t shape) { auto nd = ix::ndindex(shape); return nd.size(); }
